@@ -160,6 +160,9 @@ def hansenlaw_transform(image, dr=1, direction='inverse', hold_order=0,
                     -47391.1])
 
     image = np.atleast_2d(image)   # 2D input image
+    if not np.issubdtype(image.dtype, np.floating):
+        # (results are not integers; integer arrays would truncate them)
+        image = image.astype(float)
     aim = np.zeros_like(image)  # Abel transform array
     rows, cols = image.shape
 
